@@ -285,8 +285,24 @@ def neval(e: ast.AST, env: Dict[str, object]):
     r = env['__callhook__'](e, env)
     if r is not NotImplemented:
       return r
-  if isinstance(e, ast.Call) and isinstance(e.func, ast.Name) and e.func.id in ('abs', 'min', 'max', 'float', 'int') and not e.keywords:
-    return {'abs': abs, 'min': min, 'max': max, 'float': float, 'int': int}[e.func.id](*[neval(a, env) for a in e.args])
+  if isinstance(e, ast.Call) and isinstance(e.func, ast.Name) and e.func.id in ('abs', 'min', 'max', 'float', 'int', 'range', 'list', 'tuple', 'len', 'sorted', 'reversed') and not e.keywords:
+    fn_ = {'abs': abs, 'min': min, 'max': max, 'float': float, 'int': int, 'range': lambda *a: list(range(*a)), 'list': list,
+           'tuple': tuple, 'len': len, 'sorted': sorted, 'reversed': lambda x: list(reversed(x))}[e.func.id]
+    try:
+      return fn_(*[neval(a, env) for a in e.args])
+    except (TypeError, ValueError):
+      raise NoValue(key)
+  if isinstance(e, ast.ListComp) and len(e.generators) == 1 and isinstance(e.generators[0].target, ast.Name) and not e.generators[0].is_async:
+    gen = e.generators[0]
+    out = []
+    for v in neval(gen.iter, env):
+      env2 = dict(env)
+      env2[gen.target.id] = v
+      if all(neval(c, env2) for c in gen.ifs):
+        out.append(neval(e.elt, env2))
+    return out
+  if isinstance(e, ast.Name) and e.id in env:
+    return env[e.id]
   if isinstance(e, ast.Compare):
     l = neval(e.left, env)
     for op, c in zip(e.ops, e.comparators):
